@@ -160,6 +160,20 @@ func (p *Program) CheckFunction(fn *ssa.Function, cfg *CheckConfig) *FuncReport 
 		}
 	}
 	rep.Results = solveAll(vc, axioms, todo, cfg)
+	if c != nil && len(c.Assigns) > 0 && hasProp(c.AllProps(), cfg.Property) {
+		bad, dyn := p.FrameViolations(fn, c)
+		o := &Obligation{Name: FuncKey(fn) + "#frame:assigns", Kind: "frame", Fn: FuncKey(fn), Props: c.AllProps(), Cond: "frame", Src: "assigns " + strings.Join(c.Assigns, " ")}
+		r := &OblResult{Obl: o, OK: len(bad) == 0, Status: "discharged", Res: SolveResult{Status: "unsat", Solver: "write-summary"}}
+		if len(bad) > 0 {
+			r.Status = "failed"
+			r.Res.Status = "frame-violated"
+			r.Res.Output = "the function's transitive write summary contains keys outside its assigns clause: " + strings.Join(bad, ", ")
+		}
+		if dyn {
+			rep.Notes = append(rep.Notes, "ASSUMED frame: "+FuncKey(fn)+" calls a function value whose target is not statically known; its effect is taken to be within the assigns clause")
+		}
+		rep.Results = append(rep.Results, r)
+	}
 	return rep
 }
 
